@@ -282,7 +282,11 @@ func c11Typestate(c *Ctx) {
 			}
 		}
 	}
-	c.R.Floor("R-C11-2", 8)
+	if c.P.Cfg.GOOS == "linux" {
+		c.R.Floor("R-C11-2", 8) // + rtnlExecute, osWatch
+	} else {
+		c.R.Floor("R-C11-2", 6)
+	}
 }
 
 func c11Done(c *Ctx) {
